@@ -235,6 +235,19 @@ impl Prop for P {
         let mut docs = block_docs(tier.pick(2, 3), G { tables: false, pre: false, valid_only: false });
         // the same documents behind a block that renders nothing, and with an empty block
         // first inside list items / quotes
+        // lists of 4..11 items (counters and marker widths must not depend on the white space
+        // between the items)
+        for n in [4usize, 5, 8, 9, 10, 11] {
+            let items = |tag: &str| -> Vec<N> { (0..n).map(|k| e(tag, vec![t(&format!("q{} w", (b'a' + k as u8) as char))])).collect() };
+            docs.push(vec![e("ol", items("li"))]);
+            docs.push(vec![e("ul", items("li"))]);
+            docs.push(vec![e("blockquote", vec![ea("ol", &[("start", "3")], items("li"))])]);
+            let mut dl = vec![];
+            for k in 0..n {
+                dl.push(e(if k % 2 == 0 { "dt" } else { "dd" }, vec![t(&format!("q{}", (b'a' + k as u8) as char))]));
+            }
+            docs.push(vec![e("dl", dl)]);
+        }
         let small = block_docs(1, G { tables: false, pre: false, valid_only: true });
         for d in &small {
             for lead in [e("h3", vec![]), e("p", vec![t(" ")]), e("p", vec![e("br", vec![])]), e("div", vec![e("span", vec![])])] {
